@@ -45,8 +45,52 @@ def creator_programs(grid, entries):
             prog = E.closed_program(r["program"], W)
             out.append({"name": name, "kind": kind, "cls": cls, "entry": entry, "program": prog, "written": sorted(W),
                         "out_reads": [E.OUT], "out_arg": r["out_arg"],
-                        "unknown": r["unknown"], "inlined": r["inlined"], "assumed_pure": r["assumed_pure"]})
+                        "unknown": r["unknown"], "inlined": r["inlined"], "assumed_pure": r["assumed_pure"],
+                        "skipped": r.get("skipped", {})})
     return out
+
+
+def static_only(prog):
+    """keep only what touches module / class / default state (a callee's locals are its own business)"""
+    out = []
+    for st in prog:
+        if st[0] in ("set", "mut"):
+            if E.is_static(st[1]) or st[1].startswith("<unknown") or st[1].startswith("<escape"):
+                out.append(("mut", st[1], [], False))
+        elif st[0] == "if":
+            b, o = static_only(st[3]), static_only(st[4])
+            if b or o:
+                out.append(("if", [], False, b, o))
+    return out
+
+
+def callee_programs(progs):
+    """every package callee that some creator program did not inline, transitively: one program each,
+    reduced to its writes of shared state"""
+    dcls = dialect_classes()
+    work = {}
+    for p in progs:
+        work.update(p.get("skipped", {}))
+    done, out = {}, []
+    while work:
+        q, (fn, owner) = work.popitem()
+        if q in done:
+            continue
+        done[q] = True
+        try:
+            prog, more = E.analyse_callee(fn, owner, dcls)
+        except Exception as e:
+            prog, more = [("mut", f"<unknown analyser failure {type(e).__name__} in {q}>", [], False)], {}
+        for k, v in more.items():
+            if k not in done:
+                work[k] = v
+        red = static_only(prog)
+        if q in E.ALLOWED_STATE:
+            red = []
+        out.append({"name": f"callee.{q}", "kind": "callee", "entry": "callee", "program": [("set", E.OUT, [], False)] + red,
+                    "written": sorted(E.written_paths(red)), "out_reads": [E.OUT], "out_arg": True, "unknown": [],
+                    "inlined": [], "assumed_pure": []})
+    return sorted(out, key=lambda p: p["name"])
 
 
 def column_expression_programs():
